@@ -174,6 +174,28 @@ func c17Shared(ac *jwt.AccountClaims, uc *jwt.UserClaims, act *jwt.ActivationCla
 	add("tags=%v contains=%v", ac.GetTags(), ac.Tags.Contains("X"))
 	add("keys=%d contains=%v", len(ac.SigningKeys.Keys()), ac.SigningKeys.Contains("zz"))
 	add("limits=%v %v %v", ac.Limits.IsUnlimited(), ac.Limits.IsEmpty(), ac.Limits.IsJSEnabled())
+	add("limit parts=%v %v %v", ac.Limits.JetStreamLimits.IsUnlimited(), ac.Limits.NatsLimits.IsUnlimited(), ac.Limits.AccountLimits.IsUnlimited())
+	for _, tn := range []string{"R1", "R3"} {
+		if t, ok := ac.Limits.JetStreamTieredLimits[tn]; ok {
+			add("tier %s=%v", tn, t.IsUnlimited())
+		}
+	}
+	for i, e := range ac.Exports {
+		if e != nil && i < 4 {
+			add("export %d=%v %v %v %v", i, e.IsService(), e.IsStream(), e.IsClaimRevoked(act), e.Revocations.IsRevoked("UX", time.Unix(5, 0)))
+		}
+	}
+	for i, im := range ac.Imports {
+		if im != nil && i < 4 {
+			add("import %d=%v %v %s", i, im.IsService(), im.IsStream(), im.GetTo())
+		}
+	}
+	add("revs=%v", ac.Revocations.IsRevoked("UX", time.Unix(5, 0)))
+	for _, k := range ac.SigningKeys.Keys() {
+		sc, ok := ac.SigningKeys.GetScope(k)
+		add("scope %v %v", ok, sc != nil)
+	}
+	add("user=%v %v %v", uc.IsBearerToken(), uc.Limits.IsUnlimited(), uc.UserLimits.Empty())
 	add("selfsigned=%v", ac.IsSelfSigned())
 	h, _ := act.HashID()
 	add("hash=%s payload=%v", h, reflect.TypeOf(act.Payload()))
@@ -220,6 +242,10 @@ func runC17(c *Ctx) {
 		shared.Exports.Add(&jwt.Export{Subject: jwt.Subject(fmt.Sprintf("zz.shared.%d", i)), Type: jwt.Stream})
 		shared.Imports.Add(&jwt.Import{Subject: jwt.Subject(fmt.Sprintf("zz.imp.%d", i)), Account: kr.by["account"].pub, Type: jwt.Stream})
 	}
+	// limits spelled with the "no limit" value, as claims built by applications carry them
+	shared.Limits.JetStreamLimits = jwt.JetStreamLimits{MemoryStorage: -1, DiskStorage: -1, Streams: -1, Consumer: -1,
+		MaxAckPending: -1, MemoryMaxStreamBytes: -1, DiskMaxStreamBytes: -1}
+	shared.Limits.JetStreamTieredLimits = nil
 	sharedBefore := canonString(reflect.ValueOf(shared).Elem())
 	sharedU, _ := jwt.DecodeUserClaims(userTok)
 	sharedA, _ := jwt.DecodeActivationClaims(tokens["activation"])
